@@ -420,6 +420,25 @@ result_type parse_url_impl(std::string_view user_input,
     url.reserve(reserve_capacity);
   }
 
+  // Check the resulting (normalized) URL size against the maximum input length.
+  // Normalization (percent-encoding, IDNA, etc.) can expand the URL beyond the
+  // original input size. Every successful exit must go through this check.
+  auto enforce_max_length = [&url, max_input_length]() {
+    if constexpr (store_values) {
+      if (url.is_valid) {
+        if constexpr (result_type_is_ada_url_aggregator) {
+          if (url.buffer.size() > max_input_length) {
+            url.is_valid = false;
+          }
+        } else {
+          if (url.get_href_size() > max_input_length) {
+            url.is_valid = false;
+          }
+        }
+      }
+    }
+  };
+
   // Optimization opportunity. Most websites do not have fragment.
   std::optional<std::string_view> fragment = helpers::prune_hash(url_data);
   // We add it last so that an implementation like ada::url_aggregator
@@ -560,6 +579,7 @@ result_type parse_url_impl(std::string_view user_input,
             }
           }
           url.update_unencoded_base_hash(*fragment);
+          enforce_max_length();
           return url;
         }
         // Otherwise, if base's scheme is not "file", set state to relative
@@ -695,6 +715,7 @@ result_type parse_url_impl(std::string_view user_input,
                 url.update_unencoded_base_hash(*fragment);
               }
             }
+            enforce_max_length();
             return url;
           }
           input_position = end_of_authority + 1;
@@ -911,6 +932,7 @@ result_type parse_url_impl(std::string_view user_input,
             url.update_unencoded_base_hash(*fragment);
           }
         }
+        enforce_max_length();
         return url;
       }
       case state::HOST: {
@@ -1041,6 +1063,7 @@ result_type parse_url_impl(std::string_view user_input,
                 url.update_unencoded_base_hash(*fragment);
               }
             }
+            enforce_max_length();
             return url;
           }
           // If c is neither U+002F (/) nor U+005C (\), then decrease pointer
@@ -1297,22 +1320,7 @@ result_type parse_url_impl(std::string_view user_input,
       url.update_unencoded_base_hash(*fragment);
     }
   }
-  // Check the resulting (normalized) URL size against the maximum input length.
-  // Normalization (percent-encoding, IDNA, etc.) can expand the URL beyond the
-  // original input size.
-  if constexpr (store_values) {
-    if (url.is_valid) {
-      if constexpr (result_type_is_ada_url_aggregator) {
-        if (url.buffer.size() > max_input_length) {
-          url.is_valid = false;
-        }
-      } else {
-        if (url.get_href_size() > max_input_length) {
-          url.is_valid = false;
-        }
-      }
-    }
-  }
+  enforce_max_length();
   return url;
 }
 
